@@ -2,6 +2,7 @@ package main
 
 import (
 	"fmt"
+	"sync"
 	"runtime/debug"
 	"go/types"
 	"strings"
@@ -141,10 +142,30 @@ var nativeIntrinsics = map[string]intrinsic{
 	"unicode.SimpleFold":  unicodeMap("SimpleFold", unicode.SimpleFold),
 }
 
-// Unicode classification of a symbolic rune: exact below unicodeExact and for
-// U+FFFD (what the UTF-8 decoder yields for invalid input), an uninterpreted
-// function of the rune elsewhere (any classification: an over-approximation).
-const unicodeExact = 0x100
+// Unicode classification of a symbolic rune: exact for every rune. The
+// predicate is tabulated once over the whole code space into runs of true.
+type predRun struct{ lo, hi rune }
+
+var predRuns sync.Map // name -> []predRun
+
+func predRunsOf(name string, f func(rune) bool) []predRun {
+	if v, ok := predRuns.Load(name); ok {
+		return v.([]predRun)
+	}
+	var runs []predRun
+	for r := rune(0); r <= unicode.MaxRune; r++ {
+		if !f(r) {
+			continue
+		}
+		if n := len(runs); n > 0 && runs[n-1].hi == r-1 {
+			runs[n-1].hi = r
+			continue
+		}
+		runs = append(runs, predRun{r, r})
+	}
+	predRuns.Store(name, runs)
+	return runs
+}
 
 func unicodePred(name string, f func(rune) bool) intrinsic {
 	return func(it *Interp, fn *ssa.Function, args []Value) Value {
@@ -154,28 +175,56 @@ func unicodePred(name string, f func(rune) bool) intrinsic {
 		}
 		t := r.Ref.(*Term)
 		tt := it.tt
-		isLow := tt.Cmp(OUlt, t, tt.Const(32, unicodeExact))
-		low := tt.False
-		for c := 0; c < unicodeExact; c++ {
-			if f(rune(c)) {
-				d := c
-				for d+1 < unicodeExact && f(rune(d+1)) {
-					d++
-				}
-				var in *Term
-				if c == d {
-					in = tt.Eq(t, tt.Const(32, uint64(c)))
-				} else {
-					in = tt.And(tt.Cmp(OUle, tt.Const(32, uint64(c)), t), tt.Cmp(OUle, t, tt.Const(32, uint64(d))))
-				}
-				low = tt.Or(low, in)
-				c = d
+		// balanced disjunction of range tests (a flat chain of several hundred
+		// ranges would nest too deeply for the solver's parser)
+		runs := predRunsOf(name, f)
+		var build func(lo, hi int) *Term
+		build = func(lo, hi int) *Term {
+			if lo >= hi {
+				return tt.False
 			}
+			if hi-lo == 1 {
+				run := runs[lo]
+				if run.lo == run.hi {
+					return tt.Eq(t, tt.Const(32, uint64(run.lo)))
+				}
+				return tt.And(tt.Cmp(OUle, tt.Const(32, uint64(run.lo)), t), tt.Cmp(OUle, t, tt.Const(32, uint64(run.hi))))
+			}
+			mid := (lo + hi) / 2
+			// binary decision on the rune value keeps the term shallow
+			return tt.Ite(tt.Cmp(OUlt, t, tt.Const(32, uint64(runs[mid].lo))), build(lo, mid), build(mid, hi))
 		}
-		uf := tt.UF("uf_"+name, SBool, t)
-		hi := tt.Ite(tt.Eq(t, tt.Const(32, 0xFFFD)), tt.Bool(f(0xFFFD)), uf)
-		return fromTerm(tt.Ite(isLow, low, hi))
+		return fromTerm(build(0, len(runs)))
 	}
+}
+
+// unicodeMap: a case mapping is exact for every rune: the function is
+// tabulated once over the whole code space into runs of constant offset.
+type caseRun struct {
+	lo, hi rune
+	d      int32
+}
+
+var caseRuns sync.Map // name -> []caseRun
+
+func caseRunsOf(name string, f func(rune) rune) []caseRun {
+	if v, ok := caseRuns.Load(name); ok {
+		return v.([]caseRun)
+	}
+	var runs []caseRun
+	for r := rune(0); r <= unicode.MaxRune; r++ {
+		d := int32(f(r) - r)
+		if d == 0 {
+			continue
+		}
+		if n := len(runs); n > 0 && runs[n-1].hi == r-1 && runs[n-1].d == d {
+			runs[n-1].hi = r
+			continue
+		}
+		runs = append(runs, caseRun{r, r, d})
+	}
+	caseRuns.Store(name, runs)
+	return runs
 }
 
 func unicodeMap(name string, f func(rune) rune) intrinsic {
@@ -186,16 +235,27 @@ func unicodeMap(name string, f func(rune) rune) intrinsic {
 		}
 		t := r.Ref.(*Term)
 		tt := it.tt
-		isLow := tt.Cmp(OUlt, t, tt.Const(32, unicodeExact))
-		res := t
-		for c := unicodeExact - 1; c >= 0; c-- {
-			if m := f(rune(c)); m != rune(c) {
-				res = tt.Ite(tt.Eq(t, tt.Const(32, uint64(c))), tt.Const(32, uint64(uint32(m))), res)
+		runs := caseRunsOf(name, f)
+		var build func(lo, hi int) *Term
+		build = func(lo, hi int) *Term {
+			if lo >= hi {
+				return t
 			}
+			if hi-lo == 1 {
+				run := runs[lo]
+				var in *Term
+				if run.lo == run.hi {
+					in = tt.Eq(t, tt.Const(32, uint64(run.lo)))
+				} else {
+					in = tt.And(tt.Cmp(OUle, tt.Const(32, uint64(run.lo)), t), tt.Cmp(OUle, t, tt.Const(32, uint64(run.hi))))
+				}
+				return tt.Ite(in, tt.Bin(OAdd, t, tt.Const(32, uint64(uint32(run.d)))), t)
+			}
+			mid := (lo + hi) / 2
+			return tt.Ite(tt.Cmp(OUlt, t, tt.Const(32, uint64(runs[mid].lo))), build(lo, mid), build(mid, hi))
 		}
-		uf := tt.UF("uf_"+name, 32, t)
-		hi := tt.Ite(tt.Eq(t, tt.Const(32, 0xFFFD)), tt.Const(32, uint64(uint32(f(0xFFFD)))), uf)
-		return fromTerm(tt.Ite(isLow, res, hi))
+		res := build(0, len(runs))
+		return fromTerm(res)
 	}
 }
 
